@@ -442,7 +442,9 @@ impl Sim {
 
     /// A part that exists without a running command (left by an earlier attempt).
     pub fn orphan_part(&mut self, hash: &str) -> usize {
-        self.parts.push(Part { hash: hash.to_string(), cmd: 0, st: "pending", code: 0 });
+        // left-over parts can stem from different earlier attempts: alternate between two group ids
+        let group = 1000 + (self.parts.len() as u64 % 2);
+        self.parts.push(Part { hash: hash.to_string(), cmd: group, st: "pending", code: 0 });
         self.parts.len()
     }
 
